@@ -166,8 +166,22 @@ func (m *Machine) global(g *ssa.Global) *Value {
 	}
 	cell := new(Value)
 	*cell = m.zero(deref(g.Type()))
+	m.nonNilDeniedGlobal(g, cell)
 	m.globals[g] = cell
 	return cell
+}
+
+// nonNilDeniedGlobal: package-level variables of denied packages are never initialised (their
+// initialisers do not run). A few of them are compared with nil or passed on as "a working
+// object" by the code under test; they get an opaque non-nil value (any use of it still ends the
+// path as unsupported).
+func (m *Machine) nonNilDeniedGlobal(g *ssa.Global, cell *Value) {
+	if g.Pkg == nil || g.Pkg.Pkg == nil {
+		return
+	}
+	if g.Pkg.Pkg.Path() == "crypto/rand" && g.Name() == "Reader" {
+		*cell = Iface{T: g.Type(), V: &Native{Obj: "crypto/rand.Reader"}}
+	}
 }
 
 func deref(t types.Type) types.Type {
@@ -187,6 +201,7 @@ func (m *Machine) ensureInit(pkg *ssa.Package) {
 			if _, ok := m.globals[g]; !ok {
 				cell := new(Value)
 				*cell = m.zero(deref(g.Type()))
+				m.nonNilDeniedGlobal(g, cell)
 				m.globals[g] = cell
 			}
 		}
